@@ -82,6 +82,17 @@ impl SwiftField for Field61 {
         // Parse optional entry date (4 digits)
         let mut entry_date = None;
         if pos + 4 <= input.len() && input[pos..pos + 4].chars().all(|c| c.is_ascii_digit()) {
+            let month: u32 = input[pos..pos + 2].parse().unwrap_or(0);
+            let day: u32 = input[pos + 2..pos + 4].parse().unwrap_or(0);
+            // MMDD: a day that exists in that month of some year (29 February allowed)
+            if NaiveDate::from_ymd_opt(2000, month, day).is_none() {
+                return Err(ParseError::InvalidFormat {
+                    message: format!(
+                        "Field 61 entry date is not a valid month and day: {}",
+                        &input[pos..pos + 4]
+                    ),
+                });
+            }
             entry_date = Some(input[pos..pos + 4].to_string());
             pos += 4;
         }
@@ -152,7 +163,21 @@ impl SwiftField for Field61 {
         }
 
         let transaction_type = input[pos..pos + 4].to_string();
-        parse_swift_chars(&transaction_type, "Field 61 transaction type")?;
+        if !transaction_type
+            .chars()
+            .nth(0)
+            .is_some_and(|c| c.is_ascii_uppercase())
+            || !transaction_type
+                .chars()
+                .all(|c| c.is_ascii_uppercase() || c.is_ascii_digit())
+        {
+            return Err(ParseError::InvalidFormat {
+                message: format!(
+                    "Field 61 transaction type must be a letter and three letters or digits (1!a3!c), found {}",
+                    transaction_type
+                ),
+            });
+        }
         pos += 4;
 
         // Parse customer reference (up to 16 characters until // or end)
@@ -174,11 +199,14 @@ impl SwiftField for Field61 {
         if customer_ref_part.len() <= 16 {
             customer_reference = customer_ref_part;
         } else {
+            if after_customer_ref.is_some() {
+                return Err(ParseError::InvalidFormat {
+                    message: "Field 61 customer reference exceeds 16 characters".to_string(),
+                });
+            }
             customer_reference = customer_ref_part[..16].to_string();
             // If customer ref part is > 16 chars and no //, rest is supplementary details
-            if after_customer_ref.is_none() && customer_ref_part.len() > 16 {
-                supplementary_details = Some(customer_ref_part[16..].to_string());
-            }
+            supplementary_details = Some(customer_ref_part[16..].to_string());
         }
 
         // Parse bank reference and supplementary details (after //)
@@ -189,6 +217,11 @@ impl SwiftField for Field61 {
             if let Some(newline_pos) = bank_ref_str.find('\n') {
                 // Bank reference is before newline, supplementary details after
                 let bank_ref = bank_ref_str[..newline_pos].to_string();
+                if bank_ref.len() > 16 {
+                    return Err(ParseError::InvalidFormat {
+                        message: "Field 61 bank reference exceeds 16 characters".to_string(),
+                    });
+                }
                 if newline_pos + 1 < bank_ref_str.len() {
                     supplementary_details = Some(bank_ref_str[newline_pos + 1..].to_string());
                 }
